@@ -1148,11 +1148,14 @@ static void uv__read(uv_stream_t* stream) {
       stream->read_cb(stream, nread, &buf);
 
       /* Return if we didn't fill the buffer, there is no more data to read.
-       * That does not hold for IPC pipes: the kernel ends a read at the
-       * boundary of a message that carries descriptors.
+       * That is only a hint for IPC pipes, where the kernel ends a read at
+       * the boundary of a message that carries descriptors: do not record
+       * the partial read, so that a hang-up is not taken for end-of-stream
+       * while data is still queued.
        */
-      if (nread < buflen && !is_ipc) {
-        stream->flags |= UV_HANDLE_READ_PARTIAL;
+      if (nread < buflen) {
+        if (!is_ipc)
+          stream->flags |= UV_HANDLE_READ_PARTIAL;
         return;
       }
     }
